@@ -575,3 +575,213 @@ func driveEncodeAny(c *DriverCtx) error {
 	}
 	return nil
 }
+
+// Hostile byte strings for the decoders (C09/C10), direction B: mutations of valid encodings
+// (prefix maximisation, truncation, bit flips, splices) and pure random bytes.
+func driveHostile(c *DriverCtx) error {
+	r := c.G.R
+	enc := func(t string, v map[string]any) ([]int, error) {
+		m := NewMachine()
+		if _, err := m.Exec(Op{Op: "new", O: "m", V: v}); err != nil {
+			return nil, err
+		}
+		ev, err := m.Exec(Op{Op: "encode", B: "b", O: "m"})
+		if err != nil {
+			return nil, err
+		}
+		return ev.Post, nil
+	}
+	c.G.Small = true
+	for _, t := range c.types() {
+		emit := func(w []int, tag string) error {
+			return c.Run([]Op{{Op: "load", B: "b", Bytes: w}, {Op: "decode", B: "b", O: "r", T: t, Fresh: true, Meter: true, Tag: tag}})
+		}
+		for i := 0; i < c.N; i++ {
+			v := c.G.Value(t, Canon)
+			w, err := enc(t, v)
+			if err != nil {
+				return err
+			}
+			slots := SlotMap(t, v, w)
+			// prefix maximisation at every prefix position
+			if slots != nil {
+				for p := 0; p < len(w); p++ {
+					if slots[p] != 'p' || (p > 0 && slots[p-1] == 'p') {
+						continue
+					}
+					q := p
+					for q < len(w) && slots[q] == 'p' {
+						q++
+					}
+					for variant := 0; variant < 3; variant++ {
+						x := append([]int{}, w...)
+						for j := p; j < q; j++ {
+							x[j] = 0xff
+						}
+						switch variant {
+						case 1: // 0x7f.. (largest positive when read signed), tail cut
+							x[p], x[q-1] = 0x7f, 0x7f
+						case 2:
+							x[p], x[q-1] = 0xff, 0xfe
+						}
+						cut := q + r.Intn(8)
+						if cut > len(x) {
+							cut = len(x)
+						}
+						if err := emit(x[:cut], "prefix-max"); err != nil {
+							return err
+						}
+					}
+				}
+			}
+			// truncation
+			if len(w) > 0 {
+				if err := emit(w[:r.Intn(len(w))], "truncated"); err != nil {
+					return err
+				}
+			}
+			// bit flips
+			x := append([]int{}, w...)
+			for k := 0; k < 1+r.Intn(3) && len(x) > 0; k++ {
+				x[r.Intn(len(x))] ^= 1 << uint(r.Intn(8))
+			}
+			if err := emit(x, "bitflip"); err != nil {
+				return err
+			}
+			// splice with another type's encoding
+			all := TypeNames()
+			t2 := all[r.Intn(len(all))]
+			w2, err := enc(t2, c.G.Value(t2, Canon))
+			if err != nil {
+				return err
+			}
+			if len(w) > 0 && len(w2) > 0 {
+				sp := append(append([]int{}, w[:r.Intn(len(w))]...), w2[r.Intn(len(w2)):]...)
+				if err := emit(sp, "splice"); err != nil {
+					return err
+				}
+			}
+			// random bytes
+			rb := c.junk(r.Intn(40))
+			if r.Intn(2) == 0 {
+				for j := range rb {
+					if r.Intn(2) == 0 {
+						rb[j] = 0xff
+					}
+				}
+			}
+			if err := emit(rb, "random"); err != nil {
+				return err
+			}
+		}
+		// all-ones and all-zero inputs of a few lengths
+		for _, n := range []int{0, 1, 2, 3, 4, 7, 8, 12, 16, 64} {
+			for _, b := range []int{0xff, 0x00, 0x80} {
+				x := make([]int, n)
+				for j := range x {
+					x[j] = b
+				}
+				if err := emit(x, "constant"); err != nil {
+					return err
+				}
+			}
+		}
+	}
+	return nil
+}
+
+// Hostile inputs for the prefixed READ primitives (every prefix width, incl. 8-bit and 64-bit).
+func driveHostilePrims(c *DriverCtx) error {
+	type rd struct {
+		fn   string
+		args map[string]any
+	}
+	for _, pw := range []int{1, 2, 4, 8} {
+		for _, le := range []bool{false, true} {
+			rds := []rd{
+				{"ReadString", map[string]any{}},
+				{"ReadBasicTypeList", map[string]any{"ek": "i64"}},
+				{"ReadBasicTypeList", map[string]any{"ek": "u8"}},
+				{"ReadFixedStringList", map[string]any{"n": 8}},
+				{"ReadFixedStringListTrimPadding", map[string]any{"n": 1, "pad": 0x30, "left": true}},
+				{"ReadStringList", map[string]any{"pw2": 2}},
+				{"ReadStringList", map[string]any{"pw2": 8}},
+				{"ReadObjectList", map[string]any{"t": "sample.SubPacket"}},
+				{"ReadObjectList", map[string]any{"t": "szse.PlatformPartition"}},
+			}
+			for _, x := range rds {
+				pfx := [][]int{}
+				ff := make([]int, pw)
+				for j := range ff {
+					ff[j] = 0xff
+				}
+				pfx = append(pfx, ff)
+				h := make([]int, pw) // 0x80 00 .. : negative when converted to a signed int of the same width
+				if le {
+					h[pw-1] = 0x80
+				} else {
+					h[0] = 0x80
+				}
+				pfx = append(pfx, h)
+				s := make([]int, pw) // 0x7f ff ..
+				for j := range s {
+					s[j] = 0xff
+				}
+				if le {
+					s[pw-1] = 0x7f
+				} else {
+					s[0] = 0x7f
+				}
+				pfx = append(pfx, s)
+				pfx = append(pfx, prefixBytes(5, pw, le), prefixBytes(65535%(1<<uint(8*minInt(pw, 3))), pw, le))
+				for _, p := range pfx {
+					for _, tail := range [][]int{{}, {1, 2, 3}, c.junk(10)} {
+						a := map[string]any{"pw": pw, "le": le}
+						for k, v := range x.args {
+							a[k] = v
+						}
+						in := append(append([]int{}, p...), tail...)
+						if x.fn == "ReadStringList" && len(tail) > 0 {
+							// inner prefix maximal as well
+							in = append(append(prefixBytes(1, pw, le), ff...), ff...)
+						}
+						ops := []Op{{Op: "load", B: "b", Bytes: in}, {Op: "prim", B: "b", Fn: x.fn, Args: a, Meter: true}}
+						if err := c.Run(ops); err != nil {
+							return err
+						}
+					}
+				}
+			}
+		}
+	}
+	return nil
+}
+
+func minInt(a, b int) int {
+	if a < b {
+		return a
+	}
+	return b
+}
+
+func init() {
+	Drivers["hostile"] = driveHostile
+	Drivers["hostile-prims"] = driveHostilePrims
+}
+
+// Legitimate (canonical, also large) messages decoded with the allocation meter on: the
+// budget of C10 must hold for them (guards the check against false alarms).
+func driveRoundtripMeter(c *DriverCtx) error {
+	for _, t := range c.types() {
+		for i := 0; i < c.N; i++ {
+			v := c.G.Value(t, Canon)
+			ops := []Op{{Op: "new", O: "m", V: v}, {Op: "encode", B: "b", O: "m"}, {Op: "decode", B: "b", O: "r", T: t, Fresh: true, Meter: true}}
+			if err := c.Run(ops); err != nil {
+				return err
+			}
+		}
+	}
+	return nil
+}
+
+func init() { Drivers["roundtrip-meter"] = driveRoundtripMeter }
